@@ -73,6 +73,7 @@ def importIntoF : Nat → Val → Dyn → Val × Option ErrClass
     | .cell _ f t =>
       match x with
       | .nil => (.cell .nil f t, none)
+      | .val (.row ms) => (.cell (.val (.row ms)) .auto .none, none)   -- an incoming Row is kept as it is
       | .val v => (.cell (raw v) (format v) (rawType v), none)
       | _ =>
         if (f == .auto || f == .hidden) && t == .none then (.cell x f t, none)
